@@ -15,6 +15,48 @@ from ..symeval import SymEval
 S = T.sym
 
 
+def _setup(chk, model):
+    fi = model.func("artificial._generate_graphs")
+    chk.used(fi.qualname)
+    ev = SymEval(model)
+    r = ev.run_function(fi)
+    for n in ("step", "_scan_body_seq", "episode"):
+        if r.env.get(n, T.NONE)[0] != "closure":
+            raise AnalysisError(f"closure {n} not found in _generate_graphs")
+    return ev, r
+
+
+def rule_scan(chk: Check, model, rule, ev=None, r=None):
+    """Per-node timestamp scan of the graph generator (shared with C04: the same start-time law)."""
+    if ev is None:
+        ev, r = _setup(chk, model)
+    f_step = model.func("artificial._generate_graphs.step")
+    # ---------------------------------------------------------------- step
+    carry = ("tuple", (S("ts_prev"), S("rng_prev")))
+    out = ev.invoke(r.env["step"], [], r.frame, kwargs=[("name", S("name")), ("_generate_graphs__ts_max" if False else "__ts_max", S("TSMAX")), ("carry", carry), ("i", S("i"))])
+    ok = out[0] == "tuple" and len(out[1]) == 2 and out[1][0][0] == "tuple" and out[1][1][0] == "obj" and out[1][1][1] == "Vertex"
+    if not ok:
+        chk.unknown(rule, "step", f"step returns {T.show(out)[:200]}", chk.loc(f_step))
+    else:
+        (ts_next, rng_next), vertex = out[1][0][1], {k: T.where_to_ite(v) for k, v in out[1][1][2]}
+        split = T.mk_call("jax.random.split", [S("rng_prev")], [("num", T.const(2))])
+        samples = [x for x in T.walk(vertex["ts_end"]) if x[0] == "index" and x[1][0] == "call" and T.call_name(x[1]).endswith(".sample")]
+        d = samples[0] if samples else None
+        chk.add(rule, "ts_start is the carried time", vertex.get("ts_start") == S("ts_prev"), f"Vertex.ts_start = {T.show(vertex.get('ts_start', T.NONE))[:100]}", chk.loc(f_step))
+        chk.add(rule, "ts_end = ts_start + sampled delay", d is not None and T.const_value(d[2]) == 1 and vertex.get("ts_end") == T.add(S("ts_prev"), d),
+                f"Vertex.ts_end = {T.show(vertex.get('ts_end', T.NONE))[:160]}", chk.loc(f_step))
+        if d is not None:
+            recv = d[1][1][1] if isinstance(d[1][1], tuple) and d[1][1][0] == "attr" else None  # receiver of .sample
+            ok = recv is not None and recv[0] == "replace" and dict(recv[2]).get("rng") == T.mk_index(split, T.ZERO) and mentions(recv[1], "delay_dist") and mentions(recv[1], "name")
+            chk.add(rule, "delay sampled from the node's own distribution with a fresh key", bool(ok), f"the sample is drawn from {T.show(recv)[:160] if recv else None}, expected computation_delays[name].replace(rng=split[0])", chk.loc(f_step))
+            chk.add(rule, "rng chain is linear", rng_next == T.mk_index(split, T.ONE), f"next carry rng = {T.show(rng_next)[:100]}, expected the other half of split(rng_prev, 2)", chk.loc(f_step))
+            rate = T.mk_attr(T.mk_index(S("nodes"), S("name")), "rate")
+            want = T.mk_max([T.add(S("ts_prev"), d), T.add(S("ts_prev"), T.div(T.ONE, rate))])
+            chk.add(rule, "ts_next = max(ts_end, ts_start + 1/rate)", ts_next == want, f"next start = {T.show(ts_next)[:200]}, expected max(ts_end, ts_prev + 1 / rate)", chk.loc(f_step))
+            want_seq = T.mk_ite(T.lt(S("TSMAX"), T.add(S("ts_prev"), d)), T.const(-1), S("i"))
+            chk.add(rule, "seq = -1 iff ts_end > horizon", vertex.get("seq") == want_seq, f"Vertex.seq = {T.show(vertex.get('seq', T.NONE))[:160]}, expected where(ts_end > ts_max, -1, i)", chk.loc(f_step))
+
+
 def run(chk: Check, model):
     chk.rule("C12.scan", "timestamp scan (A7): ts_start(k) is the carried value, ts_end = ts_start + sampled computation delay, ts_start(k+1) = max(ts_end, ts_start + 1/rate) "
                          "(no overlap, at least one period apart), ts_start(0) is the node's phase, the rng is split linearly, seq = -1 iff ts_end > horizon")
@@ -24,38 +66,9 @@ def run(chk: Check, model):
                          "last valid step is -1; ts_recv = sender ts_end + sampled communication delay (-1 if never sent)")
     chk.rule("C12.augment", "augment never overwrites (A3): a vertex set / edge is generated exactly when its key is missing from the given graph, and stored under that key")
     chk.rule("C12.reject", "unsupported settings are rejected (A8): advance, PHASE scheduling, blocking and BUFFER raise NotImplementedError before anything is generated for them")
+    ev, r = _setup(chk, model)
     fi = model.func("artificial._generate_graphs")
-    chk.used(fi.qualname)
-    ev = SymEval(model)
-    r = ev.run_function(fi)
-    for n in ("step", "_scan_body_seq", "episode"):
-        if r.env.get(n, T.NONE)[0] != "closure":
-            raise AnalysisError(f"closure {n} not found in _generate_graphs")
-    f_step = model.func("artificial._generate_graphs.step")
-    # ---------------------------------------------------------------- step
-    carry = ("tuple", (S("ts_prev"), S("rng_prev")))
-    out = ev.invoke(r.env["step"], [], r.frame, kwargs=[("name", S("name")), ("_generate_graphs__ts_max" if False else "__ts_max", S("TSMAX")), ("carry", carry), ("i", S("i"))])
-    ok = out[0] == "tuple" and len(out[1]) == 2 and out[1][0][0] == "tuple" and out[1][1][0] == "obj" and out[1][1][1] == "Vertex"
-    if not ok:
-        chk.unknown("C12.scan", "step", f"step returns {T.show(out)[:200]}", chk.loc(f_step))
-    else:
-        (ts_next, rng_next), vertex = out[1][0][1], {k: T.where_to_ite(v) for k, v in out[1][1][2]}
-        split = T.mk_call("jax.random.split", [S("rng_prev")], [("num", T.const(2))])
-        samples = [x for x in T.walk(vertex["ts_end"]) if x[0] == "index" and x[1][0] == "call" and T.call_name(x[1]).endswith(".sample")]
-        d = samples[0] if samples else None
-        chk.add("C12.scan", "ts_start is the carried time", vertex.get("ts_start") == S("ts_prev"), f"Vertex.ts_start = {T.show(vertex.get('ts_start', T.NONE))[:100]}", chk.loc(f_step))
-        chk.add("C12.scan", "ts_end = ts_start + sampled delay", d is not None and T.const_value(d[2]) == 1 and vertex.get("ts_end") == T.add(S("ts_prev"), d),
-                f"Vertex.ts_end = {T.show(vertex.get('ts_end', T.NONE))[:160]}", chk.loc(f_step))
-        if d is not None:
-            recv = d[1][1][1] if isinstance(d[1][1], tuple) and d[1][1][0] == "attr" else None  # receiver of .sample
-            ok = recv is not None and recv[0] == "replace" and dict(recv[2]).get("rng") == T.mk_index(split, T.ZERO) and mentions(recv[1], "delay_dist") and mentions(recv[1], "name")
-            chk.add("C12.scan", "delay sampled from the node's own distribution with a fresh key", bool(ok), f"the sample is drawn from {T.show(recv)[:160] if recv else None}, expected computation_delays[name].replace(rng=split[0])", chk.loc(f_step))
-            chk.add("C12.scan", "rng chain is linear", rng_next == T.mk_index(split, T.ONE), f"next carry rng = {T.show(rng_next)[:100]}, expected the other half of split(rng_prev, 2)", chk.loc(f_step))
-            rate = T.mk_attr(T.mk_index(S("nodes"), S("name")), "rate")
-            want = T.mk_max([T.add(S("ts_prev"), d), T.add(S("ts_prev"), T.div(T.ONE, rate))])
-            chk.add("C12.scan", "ts_next = max(ts_end, ts_start + 1/rate)", ts_next == want, f"next start = {T.show(ts_next)[:200]}, expected max(ts_end, ts_prev + 1 / rate)", chk.loc(f_step))
-            want_seq = T.mk_ite(T.lt(S("TSMAX"), T.add(S("ts_prev"), d)), T.const(-1), S("i"))
-            chk.add("C12.scan", "seq = -1 iff ts_end > horizon", vertex.get("seq") == want_seq, f"Vertex.seq = {T.show(vertex.get('seq', T.NONE))[:160]}, expected where(ts_end > ts_max, -1, i)", chk.loc(f_step))
+    rule_scan(chk, model, "C12.scan", ev, r)
     # ---------------------------------------------------------------- tie rule
     f_sb = model.func("artificial._generate_graphs._scan_body_seq")
     n0 = len(ev.events)
